@@ -33,11 +33,19 @@ Engine E1.  Layers (each enumerated completely up to the tier bound):
          on every {1,2} length assignment, and every hand-set age vector over {0,1,2} per node
          (leaves {0,1} above the full-alphabet bound), x minimum_edge_length in {default, 0,
          0.0, 0.5, None} x error_on_negative_edge_lengths: lengths, ValueError, root edge, ages.
+  cross  [f(T1); f(T2)] in one process for every ordered pair of different trees of a menu
+         (every unlabelled binary shape with 2..6/7 leaves, the polytomies up to 4/5 leaves, a
+         caterpillar and a balanced tree with 16 and 32 leaves) and every f of the `pure` list:
+         f(T2) must equal the definition; failures are re-run in a clean interpreter.
 
 Reference: plain Python on snapshots (this file); Fractions decide acceptance/rejection.
 """
 import itertools
+import json
 import math
+import os
+import subprocess
+import sys
 from fractions import Fraction
 from functools import lru_cache
 
@@ -110,11 +118,13 @@ def bounds(tier):
         return {"ult_max_leaves": 5, "pert_max_leaves": 5, "pert_all_order_variants_up_to": 4,
                 "gen_max_leaves": 4, "stat_max_leaves": 6, "all_orders_up_to": 4, "hist_max_leaves": 4, "pure_max_leaves": 4,
                 "clamp_max_leaves": 4, "clamp_full_age_alphabet_up_to": 4,
+                "cross_binary_up_to": 6, "cross_polytomies_up_to": 4, "cross_big_trees": ["caterpillar16", "balanced16", "caterpillar32", "balanced32"],
                 "height_maps": sorted(HMAPS), "precisions": [repr(p) for p in PREC_ALL],
                 "deltas": [d for d, _ in DELTAS], "gen_alphabets": {"n<=3": [0, 1, 2], "n>=4": [[1, 2], [0, 1]]}}
     return {"ult_max_leaves": 6, "pert_max_leaves": 6, "pert_all_order_variants_up_to": 5,
             "gen_max_leaves": 5, "stat_max_leaves": 7, "all_orders_up_to": 4, "hist_max_leaves": 5, "pure_max_leaves": 5,
             "clamp_max_leaves": 5, "clamp_full_age_alphabet_up_to": 4,
+            "cross_binary_up_to": 7, "cross_polytomies_up_to": 5, "cross_big_trees": ["caterpillar16", "balanced16", "caterpillar32", "balanced32"],
             "height_maps": sorted(HMAPS), "precisions": [repr(p) for p in PREC_ALL],
             "deltas": [d for d, _ in DELTAS], "gen_alphabets": {"n<=3": [0, 1, 2], "n>=4": [[1, 2], [0, 1]]}}
 
@@ -143,6 +153,8 @@ def chunks(tier):
         add("pure", n, 30 if n <= 3 else (1 if n == 4 else 2))
     for n in range(2, b["clamp_max_leaves"] + 1):
         add("clamp", n, 30 if n <= 3 else 1)
+    for i, (name, sn) in enumerate(cross_menu(tier)):
+        out.append({"kind": "cross", "n": len(ref.leaves(sn)), "lo": i, "hi": i + 1, "tier": tier})
     return out
 
 
@@ -1509,7 +1521,142 @@ def run_clamp(chunk, ctx):
                         "error_on_negative_edge_lengths": [False, True]}, 1)
 
 
-RUNNERS = {"ult": run_ult, "pert": run_pert, "gen": run_gen, "part": run_part, "stat": run_stat, "hist": run_hist, "pure": run_pure, "clamp": run_clamp}
+# ---------------------------------------------------------------------------
+# cross layer: [f(T1); f(T2)] in one process, T1 and T2 different trees from a small menu.  f(T2)
+# must equal the definition whatever was scored before.  The failure to be caught depends on the
+# history of the *process*, so (i) every case primes with its own T1, (ii) a failure seen here is
+# reported only if the same two calls fail in a clean interpreter too (the worker may have been
+# primed by earlier chunks: such a failure is real, but it is not this pair's), and (iii) replay
+# runs the pair in a clean interpreter, whatever the replaying process did before.
+
+def ukey(s):
+    if isinstance(s, int):
+        return ()
+    return tuple(sorted(ukey(c) for c in s))
+
+
+def _caterpillar(n):
+    s = (0, 1)
+    for i in range(2, n):
+        s = (s, i)
+    return s
+
+
+def _balanced(lo, hi):
+    if hi - lo == 1:
+        return lo
+    mid = (lo + hi) // 2
+    return (_balanced(lo, mid), _balanced(mid, hi))
+
+
+def height_snap(shape):
+    """ultrametric snapshot: height of an internal node = 1 + the largest child height"""
+    def height(s):
+        return 0 if isinstance(s, int) else 1 + max(height(c) for c in s)
+
+    def rec(s, parent_h):
+        h = height(s)
+        L = None if parent_h is None else float(parent_h - h)
+        if isinstance(s, int):
+            return ("t%d" % s, None, L, ())
+        return (None, None, L, tuple(rec(c, h) for c in s))
+    return rec(shape, None)
+
+
+_MENU = {}
+
+
+def cross_menu(tier):
+    if tier in _MENU:
+        return _MENU[tier]
+    b = bounds(tier)
+    out, seen = [], set()
+    for n in range(2, b["cross_binary_up_to"] + 1):
+        for s in U.shapes(n):
+            if not (U.is_binary(s) or n <= b["cross_polytomies_up_to"]):
+                continue
+            k = ukey(s)
+            if k not in seen:
+                seen.add(k)
+                out.append(("%d-leaf:%s" % (n, ref.to_newick(ref.mk(s), False)), height_snap(s)))
+    for name in b["cross_big_trees"]:
+        n = int(name[-2:])
+        s = _caterpillar(n) if name.startswith("cat") else _balanced(0, n)
+        out.append((name, height_snap(s)))
+    _MENU[tier] = out
+    return out
+
+
+def cross_inprocess(case):
+    """[g on T1 (if T1 is in g's domain); g on T2] here and now; the violations of the second"""
+    s1, s2, g = tup(case["tree"]), tup(case["tree2"]), case["g"]
+    if g in second_calls(s1, len(ref.leaves(s1))):
+        CHECKS[g["kind"]](dict(g, tree=s1, exact=True), _Capture())
+    cap = _Capture()
+    CHECKS[g["kind"]](dict(g, tree=s2, exact=True), cap)
+    return [[sig, msg] for sig, msg in cap.got]
+
+
+def cross_clean_process(case):
+    """the same two calls in a fresh interpreter that imports the same dendropy"""
+    src = os.path.dirname(os.path.dirname(os.path.abspath(dendropy.__file__)))
+    verif = os.path.dirname(os.path.dirname(os.path.abspath(__file__)))
+    code = ("import sys, json; sys.path[:0] = %r; import dendropy, props.C17 as M; "
+            "print('@@' + json.dumps([dendropy.__file__, M.cross_inprocess(json.loads(sys.stdin.read()))]))" % ([src, verif],))
+    env = dict(os.environ, PYTHONHASHSEED="0", PYTHONDONTWRITEBYTECODE="1")
+    r = subprocess.run([sys.executable, "-c", code], input=json.dumps({"tree": case["tree"], "tree2": case["tree2"], "g": case["g"]}),
+                       capture_output=True, text=True, timeout=600, env=env)
+    lines = [l for l in r.stdout.splitlines() if l.startswith("@@")]
+    if r.returncode != 0 or not lines:
+        raise RuntimeError("clean-process run failed: rc=%s\n%s" % (r.returncode, r.stderr[-2000:]))
+    where, got = json.loads(lines[-1][2:])
+    if os.path.abspath(where) != os.path.abspath(dendropy.__file__):
+        raise RuntimeError("clean process imported %s, this process %s" % (where, dendropy.__file__))
+    return got
+
+
+_CROSS_VALIDATED = {}
+CROSS_VALIDATIONS_PER_CHUNK_AND_SIGNATURE = 2
+
+
+def check_cross(case, ctx, capped=False):
+    got = cross_inprocess(case)
+    if not got:
+        return
+    ctx.count("cross_failures_seen_in_worker")
+    if capped and all(_CROSS_VALIDATED.get(sig, 0) >= CROSS_VALIDATIONS_PER_CHUNK_AND_SIGNATURE for sig, _ in got):
+        ctx.count("cross_failures_not_validated_beyond_cap")
+        return
+    for sig, _ in got:
+        _CROSS_VALIDATED[sig] = _CROSS_VALIDATED.get(sig, 0) + 1
+    clean = cross_clean_process(case)
+    if not clean:
+        ctx.count("cross_failures_not_attributable_to_the_pair")
+        return
+    s1, s2 = tup(case["tree"]), tup(case["tree2"])
+    for sig, msg in clean:
+        ctx.violation("after-other-tree|" + sig,
+                      "in a fresh process, after the same call on %s: %s" % (ref.to_newick(s1, False), msg), case)
+
+
+def run_cross(chunk, ctx):
+    menu = cross_menu(chunk["tier"])
+    name1, s1 = menu[chunk["lo"]]
+    _CROSS_VALIDATED.clear()
+    for name2, s2 in menu:
+        if s2 == s1:
+            continue
+        ctx.count("cross_ordered_tree_pairs")
+        for g in second_calls(s2, len(ref.leaves(s2))):
+            ctx.case(("cross", name1, name2, repr(sorted(g.items(), key=repr))), True)
+            ctx.count("cross_call_pairs")
+            check_cross({"kind": "cross", "tree": s1, "tree2": s2, "first": name1, "second": name2, "g": g}, ctx, capped=True)
+    if chunk["lo"] in (3, len(menu) - 1):
+        ctx.sample({"layer": "cross", "primed_with": name1, "then": [nm for nm, _ in menu if nm != name1],
+                    "calls": [g_name(g) for g in second_calls(s1, len(ref.leaves(s1)))]}, 1)
+
+
+RUNNERS = {"ult": run_ult, "pert": run_pert, "gen": run_gen, "part": run_part, "stat": run_stat, "hist": run_hist, "pure": run_pure, "clamp": run_clamp, "cross": run_cross}
 
 
 def run_chunk(chunk, ctx):
@@ -1520,7 +1667,7 @@ def run_chunk(chunk, ctx):
 CHECKS = {"ages": check_ages, "resolve": check_resolve, "setlen": check_setlen, "lineages": check_lineages,
           "treeness": check_treeness, "gamma": check_gamma, "gamma-history": check_gamma_history,
           "stats": check_stats, "plen": check_length_partial, "both": check_both_force, "history": check_history,
-          "clamp": check_clamp}
+          "clamp": check_clamp, "cross": check_cross}
 
 
 def replay(case, ctx):
